@@ -192,6 +192,11 @@ class Model:
                 return SR({"True": "T", "False": "F", "Missing": "M"}[n["variant"]])
             if adt == "Option" and n["variant"] == "None":
                 return None
+            if adt == "Option" and n["variant"] == "Some":
+                return ("some", self.ev(n["fields"][0]["e"], env))
+            if adt == "Range" and len(n["fields"]) == 2:
+                fs = {f["name"]: self.ev(f["e"], env) for f in n["fields"]}
+                return ("range", fs["start"], fs["end"])
             return ("ctor", adt, n["variant"], [self.ev(f["e"], env) for f in sorted(n["fields"], key=lambda f: f["name"])])
         if k == "Tuple":
             return tuple(self.ev(f, env) for f in n["fields"])
@@ -268,6 +273,10 @@ class Model:
             it = self.ev(n["iter"], env)
             if isinstance(it, tuple) and it and it[0] == "enumerate":
                 items = [(i, x) for i, x in enumerate(it[1])]
+            elif isinstance(it, tuple) and it and it[0] == "range" and isinstance(it[1], int) and isinstance(it[2], int):
+                items = list(range(it[1], it[2]))
+            elif isinstance(it, tuple) and it and it[0] == "vec":
+                items = list(it[1])
             elif isinstance(it, tuple) and it and it[0] == "list":
                 items = it[1]
             else:
@@ -296,8 +305,41 @@ class Model:
                 raise Unrecognised("solve_expression on a non-operand: " + show(n["args"][0]))
             if fn.endswith("Iterator::enumerate"):
                 v = self.ev(n["args"][0], env)
-                if isinstance(v, tuple) and v[0] == "list":
+                if isinstance(v, tuple) and v[0] in ("list", "vec"):
                     return ("enumerate", v[1])
+            if fn.endswith("::with_capacity") or (fn.endswith("::new") and n.get("ty", "").startswith("std::vec::Vec<")):
+                return ("vec", [])
+            if fn.endswith("::push") and len(n["args"]) == 2:
+                v = self.ev(n["args"][0], env)
+                if isinstance(v, tuple) and v[0] == "vec":
+                    v[1].append(self.ev(n["args"][1], env))
+                    return ()
+            if fn.endswith("::len") and len(n["args"]) == 1:
+                v = self.ev(n["args"][0], env)
+                if isinstance(v, tuple) and v[0] in ("list", "vec"):
+                    return len(v[1])
+            if fn.endswith("Index::index") and len(n["args"]) == 2:
+                v, i = self.ev(n["args"][0], env), self.ev(n["args"][1], env)
+                if isinstance(v, tuple) and v[0] in ("list", "vec") and isinstance(i, int) and 0 <= i < len(v[1]):
+                    return v[1][i]
+                raise Unrecognised("index %r[%r]" % (v, i))
+            if fn.endswith("IndexMut::index_mut") and len(n["args"]) == 2:
+                v, i = self.ev(n["args"][0], env), self.ev(n["args"][1], env)
+                if isinstance(v, tuple) and v[0] == "vec" and isinstance(i, int) and 0 <= i < len(v[1]):
+                    return ("slot", v[1], i)
+                raise Unrecognised("index_mut %r[%r]" % (v, i))
+            if fn.endswith("mem::replace") and len(n["args"]) == 2:
+                slot, val = self.ev(n["args"][0], env), self.ev(n["args"][1], env)
+                if isinstance(slot, tuple) and slot[0] == "slot":
+                    old = slot[1][slot[2]]
+                    slot[1][slot[2]] = val
+                    return old
+                raise Unrecognised("mem::replace on %r" % (slot,))
+            if fn.endswith("::is_none") or fn.endswith("::is_some"):
+                v = self.ev(n["args"][0], env)
+                if v is None or (isinstance(v, tuple) and v and v[0] == "some"):
+                    return (v is None) == fn.endswith("::is_none")
+                raise Unrecognised("is_none on %r" % (v,))
             if fn.endswith("::iter") or fn.endswith("IntoIterator::into_iter") or fn.endswith("Deref::deref") or fn.endswith("AsRef::as_ref"):
                 return self.ev(n["args"][0], env)
             raise Unrecognised("call outside the model language: " + show(n)[:120])
